@@ -107,22 +107,32 @@ fn err_tok(e: &TError) -> String {
 mod cut_call {
     use super::*;
     pub trait CutCall<L: IsNone>: IsNone + Sized {
-        fn call(xs: Vec<Self>, bins: &Vec<Self>, labels: &Vec<L>, right: bool, ab: bool) -> TResult<Vec<TResult<L>>>;
+        fn call(xs: Vec<Self>, bins: &Vec<Self>, labels: &Vec<L>, right: bool, ab: bool, oc: &str, cm: &str) -> TResult<Vec<TResult<L>>>;
+    }
+    /// the fallible collectors into an output container: the first `Err` item is the result
+    fn collect_into<O: Vec1<L>, L: IsNone + Clone + std::fmt::Debug, I: TrustedLen<Item = TResult<L>>>(it: I, cm: &str) -> TResult<Vec<TResult<L>>> {
+        let o: O = if cm == "trusted" { it.try_collect_trusted_vec1()? } else { it.try_collect_vec1()? };
+        Ok(o.titer().map(Ok).collect())
     }
     macro_rules! cut_call {
         ($($t:ty),*) => { $(
-            impl<L: IsNone + Clone> CutCall<L> for $t {
-                fn call(xs: Vec<Self>, bins: &Vec<Self>, labels: &Vec<L>, right: bool, ab: bool) -> TResult<Vec<TResult<L>>> {
+            impl<L: IsNone + Clone + std::fmt::Debug> CutCall<L> for $t {
+                fn call(xs: Vec<Self>, bins: &Vec<Self>, labels: &Vec<L>, right: bool, ab: bool, oc: &str, cm: &str) -> TResult<Vec<TResult<L>>> {
                     let it = xs.titer().vcut(bins, labels, right, ab)?;
-                    Ok(it.collect::<Vec<TResult<L>>>())
+                    match oc {
+                        "vec" => collect_into::<Vec<L>, L, _>(it, cm),
+                        "deque" => collect_into::<std::collections::VecDeque<L>, L, _>(it, cm),
+                        "nd" => collect_into::<crate::backends::Array1<L>, L, _>(it, cm),
+                        _ => Ok(it.collect::<Vec<TResult<L>>>()),
+                    }
                 }
             }
         )* };
     }
     cut_call!(i32, Option<i32>, f64);
 
-    pub fn vcut_dyn<T: CutCall<L>, L: IsNone>(xs: Vec<T>, bins: &Vec<T>, labels: &Vec<L>, right: bool, ab: bool) -> TResult<Vec<TResult<L>>> {
-        T::call(xs, bins, labels, right, ab)
+    pub fn vcut_dyn<T: CutCall<L>, L: IsNone>(xs: Vec<T>, bins: &Vec<T>, labels: &Vec<L>, right: bool, ab: bool, oc: &str, cm: &str) -> TResult<Vec<TResult<L>>> {
+        T::call(xs, bins, labels, right, ab, oc, cm)
     }
 }
 
@@ -143,9 +153,9 @@ where
     }
     let (right, ab) = (r.bool("right"), r.bool("ab"));
     match r.s("lt") {
-        "i32" => fin(cut_call::vcut_dyn::<T, i32>(xs, &bins, &elems(r, "labels"), right, ab)),
-        "f64" => fin(cut_call::vcut_dyn::<T, f64>(xs, &bins, &elems(r, "labels"), right, ab)),
-        _ => fin(cut_call::vcut_dyn::<T, Option<i32>>(xs, &bins, &elems(r, "labels"), right, ab)),
+        "i32" => fin(cut_call::vcut_dyn::<T, i32>(xs, &bins, &elems(r, "labels"), right, ab, r.s("oc"), r.s("cm"))),
+        "f64" => fin(cut_call::vcut_dyn::<T, f64>(xs, &bins, &elems(r, "labels"), right, ab, r.s("oc"), r.s("cm"))),
+        _ => fin(cut_call::vcut_dyn::<T, Option<i32>>(xs, &bins, &elems(r, "labels"), right, ab, r.s("oc"), r.s("cm"))),
     }
 }
 
